@@ -93,7 +93,9 @@ func emitStep(id string, content []byte) {
 
 func genStepContent(r *rand.Rand, tier string) string {
 	g := dgen{r}
-	switch r.Intn(8) {
+	switch r.Intn(9) {
+	case 8:
+		return genJunk(r, r.Intn(2), false, false) + cutAfterLaterHeader(r, printDump(g.dump(2+r.Intn(3), 4), g.variant(), true))
 	case 0, 1:
 		k := 1 + r.Intn(10)
 		var b strings.Builder
